@@ -199,6 +199,20 @@ def c14_plans(rng, K, limit, tier):
                 for vm in modes:
                     plans.append([{'round': pos, 'kind': kind,
                                    'persist': persist, 'values': vm}])
+    all_pairs_upto = 3 if tier == 'thorough' else 2
+    if 2 <= K <= all_pairs_upto:
+        # every combination of two faults (first transient; position a < b)
+        for a in range(1, K + 1):
+            for b in range(a + 1, K + 1):
+                for k1 in kinds:
+                    for k2 in kinds:
+                        for persist in (False, True):
+                            plans.append([
+                                {'round': a, 'kind': k1, 'persist': False,
+                                 'values': rng.choice(VALUE_MODES)},
+                                {'round': b, 'kind': k2, 'persist': persist,
+                                 'values': rng.choice(VALUE_MODES)}])
+        return plans
     npairs = 12 if tier == 'thorough' else 4
     for _ in range(npairs if K >= 1 else 0):
         a = rng.randint(1, K)
